@@ -549,7 +549,7 @@ impl Packet {
                             if idx >= buf.len() {
                                 return Err(MessageError::InvalidOptionLength);
                             }
-                            delta = (buf[idx] + 13).into();
+                            delta = buf[idx] as u16 + 13;
                             idx += 1;
                         }
                         14 => {
